@@ -7,6 +7,7 @@ CONSTANTS
   IntVals2 <- TinyIntVals
   ArgKinds <- PairArgKinds
   Kinds = {"static"}
+  NameModes <- BothNames
   ConstMethods = FALSE
   Fixed <- NoFix
 INVARIANT RefinesAndTies
